@@ -35,6 +35,7 @@ pub fn initial_states(seed: u64) -> Vec<(&'static str, Option<Vec<u8>>)> {
         ("keyring-with-comments-and-blank-lines", Some(format!("# my keys\n\n{}\n# bob has no private key\n\n{}\n\n\n", a.entry(true), b.entry(false)).into_bytes())),
         ("keyring-with-non-ascii-comment-no-final-newline", Some(format!("# Schl\u{fc}ssel f\u{fc}r Zo\u{eb} \u{1F511}\n{}\n# \u{e9}nd", a.entry(true)).into_bytes())),
         ("keyring-with-crlf", Some(two.replace('\n', "\r\n").into_bytes())),
+        ("keyring-behind-a-symlink", Some(two.clone().into_bytes())),
         ("keyring-larger-than-8KiB", Some(format!("{}\n{}\n{}", "# long comment line that pads the keyring file beyond any small buffer size ....\n".repeat(130), a.entry(true), b.entry(false)).into_bytes())),
     ]
 }
@@ -66,8 +67,15 @@ fn step(ctx: &Ctx, h: &Hist) -> Result<Option<Vec<u8>>, String> {
     }
     let (ni, pi) = *h.gens.last().unwrap();
     let sc = Scratch::new();
+    // "behind a symlink": the path given to -o is a symbolic link to the real keyring (e.g. kept in a dotfiles checkout)
+    let via_link = ctx.inits[h.init as usize].0.contains("symlink");
     if let Some(b) = &before {
-        sc.write("keys.txt", b);
+        if via_link {
+            sc.write("real-keys.txt", b);
+            std::os::unix::fs::symlink("real-keys.txt", sc.path("keys.txt")).map_err(|e| format!("MACHINERY: symlink: {}", e))?;
+        } else {
+            sc.write("keys.txt", b);
+        }
     }
     let out = proc::run(
         &Cmd::new(&["key", "generate", "-o", "keys.txt", "--env-pass"]).env("KESTREL_PASSWORD", PASSWORDS[pi as usize]).stdin(format!("{}\n", NAMES[ni as usize]).as_bytes()),
@@ -78,6 +86,15 @@ fn step(ctx: &Ctx, h: &Hist) -> Result<Option<Vec<u8>>, String> {
         return Err(format!("key generate exited {:?}: {}", out.code, out.summary()));
     }
     let after = sc.read("keys.txt").ok_or("keyring file missing after key generate")?;
+    if via_link {
+        // whatever the tool did with the link, the real keyring must not have lost anything
+        let real = sc.read("real-keys.txt").ok_or("the real keyring behind the symbolic link is gone")?;
+        if let Some(b) = &before {
+            if !real.starts_with(b) {
+                return Err(format!("-o named a symbolic link to the keyring: the {} bytes of the real keyring are not a prefix of its {} bytes afterwards (existing keys destroyed)", b.len(), real.len()));
+            }
+        }
+    }
     // 1. earlier contents are a byte prefix
     if let Some(b) = &before {
         if !after.starts_with(b) {
@@ -166,7 +183,7 @@ impl Model for M {
             return;
         }
         // quick tier: second-level histories only from four of the initial states (all of them in thorough)
-        if self.0.max_gens == 2 && s.gens.len() == 1 && ![0usize, 3, 5, 7].contains(&(s.init as usize)) {
+        if self.0.max_gens == 2 && s.gens.len() == 1 && ![0usize, 3, 5, 8].contains(&(s.init as usize)) {
             return;
         }
         for n in 0..NAMES.len() as u8 {
